@@ -506,12 +506,12 @@ def _intersects(a, b, cond):
                     ("call", f, tuple(km(b) + km(a)), ()))
 
 
-def r3_ranges(program, rep):
-    up = program.get(OC + ":_refine_upcheck")
-    T = Terms(up)
+def _upcheck_removal(up, T):
+    """The removal of member i from the merge in the up-check:
+    _Merge(table, entries - {i}) -> (call, node, merge term, index term)."""
     cfg = T.cfg
-    # the removal of member i from the merge: _Merge(table, entries - {i})
     rem = []
+    P0 = ("attr", ("param", formals(up)[0]), "routing_table")
     for c in calls_in(up, "_Merge"):
         if len(c.args) < 2:
             continue
@@ -521,36 +521,88 @@ def r3_ranges(program, rep):
                    ("new", ANY, ("set", V("i")))), t)
         # (every merge refined here is against the table of the merge given:
         # _Merge(table, ...) is only ever created with that table)
-        P0 = ("attr", ("param", formals(up)[0]), "routing_table")
         if m is not None and T.term(c.args[0], n) in (
                 ("attr", m["M"], "routing_table"), P0):
             rem.append((c, n, m["M"], m["i"]))
     if not rem:
         raise AnalysisError("_refine_upcheck: the removal of a member from "
                             "the merge was not found in the form analysed")
-    ok = len(rem) == 1
-    if ok:
-        c, n, M, I = rem[0]
-        TABLES = (("attr", M, "routing_table"), P0)
-        ok = False
-        for kind, it, conds in T.quantified(n):
-            if kind != "some":
-                continue
-            TABLE = it[1] if it[0] == "item" else None
-            ENTRY = ("item", TABLE, I)
-            rng = it[0] == "item" and it[1] in TABLES and \
-                it[2][0] == "slice" and it[2][1] in (
-                    ("binop", "Add", I, ("const", 1)),
-                    ("binop", "Add", ("const", 1), I), I) and \
-                it[2][2] == ("attr", M, "insertion_index") and \
-                it[2][3] == ("const", None)
-            if rng and len(conds) == 1 and conds[0][1] is True and \
-                    _intersects(ENTRY, ("elem", it), conds[0][0]):
-                ok = True
+    return rem, P0
+
+
+def r3_upcheck_range(program, rep):
+    """What a merge member is compared with in the up-check: the key and
+    mask of every entry between it and the insertion point.  Decided on the
+    value terms of the scan (helpers are followed by the term engine)."""
+    up = program.get(OC + ":_refine_upcheck")
+    T = Terms(up)
+    rem, P0 = _upcheck_removal(up, T)
+    if len(rem) != 1:
+        raise AnalysisError("_refine_upcheck: %d removals of a member" %
+                            len(rem))
+    c, n, M, I = rem[0]
+    TABLES = (("attr", M, "routing_table"), P0)
+    f = ("global", "intersect")
+    verdicts = []
+    for kind, it, conds in T.quantified(n):
+        if kind != "some" or len(conds) != 1 or conds[0][1] is not True:
+            continue
+        cd = conds[0][0]
+        if not (cd[0] == "call" and cd[1] == f and len(cd[2]) == 4
+                and not cd[3]):
+            continue
+        outer = it[1] if it[0] == "nest" else it
+        if not (outer[0] == "item" and outer[1] in TABLES):
+            continue
+        ENTRY = ("item", outer[1], I)
+        mine = (("attr", ENTRY, "key"), ("attr", ENTRY, "mask"))
+        a, b = tuple(cd[2][:2]), tuple(cd[2][2:])
+        if b == mine:
+            a, b = b, a
+        if a != mine:
+            continue
+        E = ("elem", outer)
+        own = (("attr", E, "key"), ("attr", E, "mask"))
+        rng = outer[2][0] == "slice" and outer[2][1] in (
+            ("binop", "Add", I, ("const", 1)),
+            ("binop", "Add", ("const", 1), I), I) and \
+            outer[2][2] == ("attr", M, "insertion_index") and \
+            outer[2][3] == ("const", None)
+        if b == own and it[0] != "nest":
+            verdicts.append((rng, "the entries compared are %s" %
+                             ("table[i+1 : insertion_index]" if rng else
+                              "not all of table[i+1 : insertion_index]")))
+        elif b[0][0] == "comp" and b[1][0] == "comp" and \
+                b[0][1] == b[1][1] and b[0][1][0] == "elem" and \
+                b[0][1][1][0] == "get" and \
+                b[0][1][1][2] == ("tuple",) + own and \
+                any(x[0] == "param" for x in subterms(b[0][1][1][1])):
+            verdicts.append((False, "the member is compared with the keys "
+                             "and masks a table looked up by the in-between "
+                             "entry's key/mask stands for, not with the "
+                             "entry's own key and mask: a merged entry "
+                             "matches every key of its key/mask, not only "
+                             "those of its aliases"))
+    if not verdicts:
+        raise AnalysisError("_refine_upcheck: the scan that decides the "
+                            "removal of a member was not found in the form "
+                            "analysed")
+    ok = all(v for v, _ in verdicts)
     rep.check(ok, "C04-R3", qual(up), "up-check: a member at index i is "
               "removed when it intersects an entry of table[i+1 : "
               "insertion_index] (everything between it and where the merged "
-              "entry will sit)", construct="up-check range", node=up)
+              "entry will sit)", construct="up-check range", node=up,
+              fail="; ".join(t for v, t in verdicts if not v))
+
+
+r3_upcheck_range.helper_aware = True
+
+
+def r3_ranges(program, rep):
+    up = program.get(OC + ":_refine_upcheck")
+    T = Terms(up)
+    cfg = T.cfg
+    rem, P0 = _upcheck_removal(up, T)
     # the flag returned with the merge is set whenever a member is removed
     # and never reset
     okc = False
@@ -1515,6 +1567,7 @@ def check(program, rep):
     program.module(OC)
     rep.guard("C04-R1", r1_algebra, program, rep)
     rep.guard("C04-R2", r2_default, program, rep)
+    rep.guard("C04-R3", r3_upcheck_range, program, rep)
     rep.guard("C04-R3", r3_ranges, program, rep)
     rep.guard("C04-R4", r4_aliases, program, rep)
     rep.guard("C04-R5", r5_contract, program, rep)
